@@ -11,6 +11,7 @@
    env path ([iso_sound]); the engine used for the correspondence runs satisfies it. *)
 From Coq Require Import List.
 From SV Require Import Model.Isolation Proofs.IsolationProofs Model.BridgeMemo Proofs.BridgeMemoProofs.
+From SV Require Import Model.ResultDispatch Proofs.ResultDispatchProofs.
 Import ListNotations.
 
 (* Emit/EmitSync leave the map passed by the caller exactly as it was (deep: the row, with every
@@ -48,6 +49,51 @@ Theorem C20_sink_rows_stable : forall P (E : iengine P) qs evs1 evs2 s0 s1 os1 s
     iso_hget (is_heap s2) d = iso_hget (is_heap s1) d /\ iso_hget (is_heap s2) a = iso_hget (is_heap s1) a.
 Proof. exact iso_sink_rows_stable. Qed.
 Print Assumptions C20_sink_rows_stable.
+
+(* the window path: the result rows of a firing (new maps from the aggregator) go through
+   processAggregationResults - writes into the rows (group-column projection, analytic aliases),
+   DISTINCT, HAVING, removal of the hidden __having_N__ columns, ORDER BY, LIMIT - and are then handed
+   to the result channel and the sinks.  For every configuration [c] (any HAVING / DISTINCT predicate,
+   any ORDER BY relation, any LIMIT, any pre-write), every heap and every sequence of firings: each
+   batch a sink was given - the same slice of addresses, read on the FINAL heap - has exactly the
+   content it had at the hand-over, and no map that existed before the instance ran is touched *)
+Theorem C20_dispatch_delivered_rows_stable : forall c firings h h' ds,
+  rd_run false c h firings = (h', ds) ->
+  (forall d, In d ds -> map (iso_hget h') (fst d) = snd d) /\
+  (forall a, a < length h -> iso_hget h' a = iso_hget h a).
+Proof. exact rd_run_delivered_stable. Qed.
+Print Assumptions C20_dispatch_delivered_rows_stable.
+
+(* one dispatch writes only into the rows of its own batch and hands over only rows of that batch,
+   whether or not the hidden columns are removed late *)
+Theorem C20_dispatch_frame : forall df c h b h2 d,
+  rd_dispatch df c h b = (h2, d) ->
+  length h2 = length h /\
+  (forall a, ~ In a b -> iso_hget h2 a = iso_hget h a) /\
+  (forall x, In x (fst d) -> In x b).
+Proof. exact rd_dispatch_frame. Qed.
+Print Assumptions C20_dispatch_frame.
+
+(* the order of the steps matters: with the removal of the hidden columns moved behind the hand-over
+   (a defer inside the HAVING block), EVERY firing whose row passes HAVING and carries a hidden column
+   gives the sink a row that the engine alters afterwards - whatever ORDER BY / LIMIT say *)
+Theorem C20_dispatch_deferred_strip_refuted : forall c p h row,
+  rd_having c = Some p -> rd_distinct c = None ->
+  p (rd_pre c row) = true ->
+  rd_strip (rd_pre c row) <> rd_pre c row ->
+  forall h' ds, rd_run true c h [[row]] = (h', ds) ->
+  exists d, In d ds /\ fst d = [length h] /\ snd d = [rd_pre c row] /\
+            map (iso_hget h') (fst d) <> snd d.
+Proof. exact rd_dispatch_deferred_alters. Qed.
+Print Assumptions C20_dispatch_deferred_strip_refuted.
+
+(* non-vacuity: SELECT device, count( * ) AS c ... HAVING max(v) > 4 on a firing whose row is
+   {c:2, __having_0__:6}: the code hands over {c:2} and leaves it; the deferred removal hands over
+   {c:2, __having_0__:6} and leaves {c:2} on the heap *)
+Example C20_dispatch_example :
+  rd_run false rd_cfg_ex [] [[rd_row_ex]] = ([[(rd_k_c, IInt 2)]], [([0], [[(rd_k_c, IInt 2)]])]) /\
+  rd_run true rd_cfg_ex [] [[rd_row_ex]] = ([[(rd_k_c, IInt 2)]], [([0], [rd_row_ex])]).
+Proof. split; [exact rd_example_code | exact rd_example_deferred]. Qed.
 
 (* the process-wide program cache (keyed by expression text) is transparent: whatever texts other
    instances compiled first, and on whatever rows, an evaluation returns what the env path returns *)
